@@ -310,6 +310,8 @@ def execute(sim_cls, cfg: dict, events=None, keep_events=True) -> RunResult:
                         if ev is None:
                             break
                         ev.setdefault("uid", i)
+                        if not sim.applicable(ev):
+                            continue  # a proposal the guards refuse is dropped, never recorded
                     else:
                         ev = events[i]
                         if not sim.applicable(ev):
